@@ -221,7 +221,7 @@ def generate(prop, rng, tier):
         plan['ops'] = []
         # the recorder alone, or combined with odl's own callback objects
         plan['cbkind'] = rng.choice(['plain', 'plain', 'and_store',
-                                     'store_and'])
+                                     'store_and', 'shared_chain'])
         if solver in ('kaczmarz',):
             cfg['random'] = rng.random() < 0.5
     return plan
@@ -579,6 +579,36 @@ def _callbacks(plan, inst, ctx):
     fired = {}
     cb, stored = rec, None
     kind = plan.get('cbkind', 'plain')
+    if kind == 'shared_chain':
+        # one composite callback shared by two runs, each run with its own
+        # store attached by a further & (seed a11): building `base & store`
+        # must not change `base`
+        S_ = SI.odl().solvers
+        ra, rb = Recorder(), Recorder()
+        base = S_.CallbackApply(ra) & S_.CallbackApply(rb)
+        s1, s2 = [], []
+        cb1 = base & S_.CallbackStore(results=s1)
+        with seams.allocator(garbage, salt=3):
+            with seams.schedule(record=[]):
+                _solver_call(prop, inst, inst.run, inst.fresh_state(), N, cb1,
+                             'callbacks')
+        c1 = ra.count
+        cb2 = base & S_.CallbackStore(results=s2)
+        with seams.allocator(garbage, salt=3):
+            with seams.schedule(record=[]):
+                _solver_call(prop, inst, inst.run, inst.fresh_state(), N, cb2,
+                             'callbacks')
+        ctx.step(2 * N)
+        ctx.fired('callback-shared-composite')
+        if not (len(s1) == c1 and len(s2) == ra.count - c1 and
+                rb.count == ra.count):
+            raise Violation(
+                prop, 'C11/callback-composite-shared/{}'.format(name),
+                '{}: a composite callback shared by two runs, each with its '
+                'own CallbackStore attached by &: the stores hold {} and {} '
+                'iterates, the shared callbacks saw {} and then {} more'.format(
+                    name, len(s1), len(s2), c1, ra.count - c1))
+        kind = 'plain'
     if kind != 'plain':
         S_ = SI.odl().solvers
         stored = []
